@@ -11,8 +11,8 @@ import (
 	"github.com/ThreeDotsLabs/watermill/message"
 	"github.com/ThreeDotsLabs/watermill/pubsub/gochannel"
 
-	"wmverif/scripted"
 	"wmverif/sched"
+	"wmverif/scripted"
 	"wmverif/tr"
 )
 
